@@ -23,6 +23,42 @@ type Intent struct {
 	// HostLikeOrigin: the request's Host header equals the origin's host[:port] (e.g. behind a reverse
 	// proxy that serves several sites); the request is still cross-origin as far as the browser is concerned.
 	HostLikeOrigin bool `json:"host_like_origin,omitempty"`
+	// Ambient selects the headers a browser sends along with every request of its own accord (Fetch Metadata,
+	// User-Agent, Accept*, Referer, cache directives ...); 0 = none. They carry no CORS meaning: the verdict
+	// must not depend on them.
+	Ambient int `json:"ambient,omitempty"`
+}
+
+const nAmbient = 6
+
+// ambientHeaders returns what a browser adds of its own accord to a cross-origin request made with fetch().
+func ambientHeaders(in Intent, preflight bool) []HV {
+	site := "cross-site"
+	var out []HV
+	switch in.Ambient {
+	case 0:
+		return nil
+	case 2:
+		// a cross-ORIGIN request between two hosts of one site (app.example.com -> api.example.com, or another port)
+		site = "same-site"
+	case 3:
+		// do-not-track and global privacy control on, client hints
+		out = append(out, HV{"Dnt", Vals("1")}, HV{"Sec-Gpc", Vals("1")}, HV{"Sec-Ch-Ua-Mobile", Vals("?0")}, HV{"Sec-Ch-Ua-Platform", Vals("\"Linux\"")})
+	case 4:
+		out = append(out, HV{"Priority", Vals("u=4")}, HV{"Te", Vals("trailers")})
+	case 5:
+		// an older browser or a non-browser client imitating one: no Fetch Metadata at all
+		return []HV{{"User-Agent", Vals("Mozilla/5.0 (compatible)")}, {"Accept", Vals("*/*")}, {"Referer", Vals(in.Origin + "/")}, {"Connection", Vals("keep-alive")}}
+	}
+	out = append(out,
+		HV{"Sec-Fetch-Mode", Vals("cors")}, HV{"Sec-Fetch-Site", Vals(site)}, HV{"Sec-Fetch-Dest", Vals("empty")},
+		HV{"User-Agent", Vals("Mozilla/5.0 (X11; Linux x86_64) AppleWebKit/537.36 (KHTML, like Gecko) Chrome/126.0.0.0 Safari/537.36")},
+		HV{"Accept", Vals("*/*")}, HV{"Accept-Language", Vals("en-GB,en;q=0.9")}, HV{"Accept-Encoding", Vals("gzip, deflate, br, zstd")},
+		HV{"Referer", Vals(in.Origin + "/")}, HV{"Connection", Vals("keep-alive")})
+	if !preflight && in.Creds {
+		out = append(out, HV{"Cookie", Vals("session=abc")})
+	}
+	return out
 }
 
 func isTokenByte(b byte) bool {
@@ -212,6 +248,7 @@ func Browser(wrap func(http.Handler) http.Handler, in Intent) (bool, BrowserTrac
 			req.Host = strings.SplitN(in.Origin, "://", 2)[1]
 			req.TLS = strings.HasPrefix(in.Origin, "https")
 		}
+		req.Hdr = append(req.Hdr, ambientHeaders(in, true)...)
 		resp := Do(wrap, req, nil)
 		tr.PreflightResp = &resp
 		if resp.Called != 0 {
@@ -265,6 +302,7 @@ func Browser(wrap func(http.Handler) http.Handler, in Intent) (bool, BrowserTrac
 		req.Host = strings.SplitN(in.Origin, "://", 2)[1]
 		req.TLS = strings.HasPrefix(in.Origin, "https")
 	}
+	req.Hdr = append(req.Hdr, ambientHeaders(in, false)...)
 	resp := Do(wrap, req, nil)
 	tr.ActualResp = &resp
 	if !corsCheck(resp.Hdr, in.Origin, in.Creds) {
